@@ -14,7 +14,7 @@ from collections import OrderedDict
 from lxml import etree
 
 from zeep.exceptions import IncompleteMessage
-from zeep.loader import absolute_location, is_relative_path, load_external
+from zeep.loader import is_relative_path, load_external, normalize_location
 from zeep.settings import Settings
 from zeep.utils import findall_multiple_ns
 from zeep.wsdl import parse
@@ -274,7 +274,9 @@ class Definition:
                 )
                 continue
 
-            location = absolute_location(location, self.location)
+            location = normalize_location(
+                self.wsdl.settings, location, self.location
+            )
             key = (namespace, location)
             if key in self.wsdl._definitions:
                 self.imports[key] = self.wsdl._definitions[key]
